@@ -62,9 +62,9 @@ Definition toks_inv (es : list edit) (added : list nat) (t0 t1 : list (nat * str
   toks_eqb (map (fun t => (shift_all es (fst t), snd t)) t0) (filter (fun t => negb (memn (fst t) added)) t1).
 
 (* ---------- LOC ---------- *)
-Definition raw_sline (pfx : string) (s : string) : SrpTypes.line :=
-  let t := strip s in
-  {| l_kind := if String.eqb t "" then LBlank else if starts_with pfx t then LComment else LCode; l_text := t |}.
+(* the SRP model strips the raw line itself (Model/SrpTypes.v l_text); the kind only matters for one-line block comments and
+   for `#` lines inside multi-line strings, which the harness does not tell apart here *)
+Definition raw_sline (pfx : string) (s : string) : SrpTypes.line := {| l_kind := LCode; l_raw := s |}.
 
 Definition mkcls (start len : nat) : cls :=
   {| c_name := "C"; c_kind := CPlain; c_line := start; c_col := 0; c_deco := 0; c_len := len; c_members := [] |}.
